@@ -72,8 +72,9 @@ def run(ctx):
         key = sanitize("c19.recursion|" + "|".join(names)[:200])
         if not any(mine(prog.fns[c]) for c in comp):
             continue
-        if key in RECURSION_OK:
-            ctx.exception("c19.recursion", key, RECURSION_OK[key], prog.fns[comp[0]].loc())
+        from ..spec.triage import recursion_reason
+        if key in RECURSION_OK or recursion_reason(names):
+            ctx.exception("c19.recursion", key, RECURSION_OK.get(key) or recursion_reason(names), prog.fns[comp[0]].loc())
         else:
             ctx.violation("c19.recursion", key, "recursion cycle in reachable code (depth driven by input?): %s" % names, prog.fns[comp[0]].loc())
     ctx.ok("c19.recursion", "c19.recursion|scan", "call-graph SCCs of %d reachable bodies examined" % len(seen), None)
